@@ -314,7 +314,9 @@ CRecvErr(c) ==
 
 \* the error callback ends die()
 CbErr ==
-  /\ proc.pc = "die.cb"
+  /\ proc.pc \in {"die.cb", "die.close"}
+  \* die(err, close): the connection is closed before the application hears about the error (a refused message is redelivered only then)
+  /\ G("C09,C10", "ConnectionClosedBeforeErrorCallback", proc.pc = "die.cb")
   /\ proc' = [proc EXCEPT !.pc = IF proc.cont THEN "recv" ELSE "dead"]
   /\ UNCHANGED <<link, up, down, obj, inside, waiting, sessC, futs, fname, nfut, cfg, obs>>
 
